@@ -23,9 +23,9 @@ schedule is an arbitrary list of thread indices.
   outcome of the same call made alone on a fresh model.  `c22_values_sequential`: on graphs
   with unique producers the plan a call holds and the plan it would get alone give the same
   output values in C02's value-carrying model of `run_plan` (both succeed with equal outputs or
-  both fail) — by C02's `c02_plan_independent_iff`; the only remaining hypothesis is planner
-  completeness up to order (`PlannerComplete`, not yet a theorem of C03).  Equality of *failing*
-  outcomes is false in general (`Executor.c02_error_depends_on_order`).
+  both fail) — by C02's `c02_plan_independent_iff` and C03's `c03_complete` (planner completeness
+  on unique-producer graphs); no hypothesis of another property is left open.  Equality of
+  *failing* outcomes is false in general (`Executor.c02_error_depends_on_order`).
 * `c22_progress`, `c22_all_done` (T3): a thread's step never waits for another thread: the
   critical section contains no blocking call and its only loop terminates (`c03_terminates`);
   after any schedule in which a thread was scheduled twice, it is done — no deadlock through
@@ -298,17 +298,23 @@ theorem c22_errors_sequential {m : Mdl} {c : Option CachedPlan} (hc : Reachable 
       rcases herr with h | ⟨e, h⟩ <;> (subst h; cases hcl)
 
 /-- Planner completeness for `k`'s request: if a valid plan exists at all, `create_plan` finds
-one.  C03 proves soundness of every planner error (`c03_error_cause`) but not yet this converse
-(it needs unique producers); it stays a hypothesis here. -/
+one. -/
 def PlannerComplete (m : Mdl) (k : Call) : Prop :=
   (∃ p, PlanOK m.g false (resolvedNew m.g k.req.ids false) k.req.outs p) →
     ∃ p', createPlan m.g k.req.ids k.req.outs (cacheOpts false) = .ok p'
+
+/-- …which on unique-producer graphs is C03.T2c (`c03_complete`), for well-formed ids. -/
+theorem plannerComplete_of_unique {m : Mdl} {k : Call} (hu : UniqueProducer m.g)
+    (hargs : ArgsOK m.g k.req.ids k.req.outs) : PlannerComplete m k := by
+  rintro ⟨p, hp⟩
+  obtain ⟨p', hp', _⟩ := c03_complete (opts := cacheOpts false) hu hargs hp
+  exact ⟨p', hp'⟩
 
 /-- **C22.T2, value form** (discharges the former `PlanIndependent` hypothesis by C02's
 `c02_plan_independent_iff`).  Take any schedule of any calls from any reachable cache, and a
 thread that has left the critical section holding `plan` — possibly another call's cached plan
 for a permutation of its ids.  Then the same call made alone on a freshly loaded model plans
-successfully (`PlannerComplete`), with some `p'`, and C02's value-carrying model of `run_plan`
+successfully (C03.T2c `c03_complete`), with some `p'`, and C02's value-carrying model of `run_plan`
 (`Executor.runPlan`, including in-place execution and reference counting) returns the outputs
 `vals` with the held plan **iff** it returns the same `vals` with `p'`: same outputs on success,
 and both succeed or both fail.  The hypotheses on `ops`/`r` are exactly those of C02's theorem
@@ -320,7 +326,6 @@ theorem c22_values_sequential {V : Type} {ops : Executor.Ops V} {r : Executor.Ru
     (calls : List Call) (sched : List Nat) {i : Nat} {k : Call} {plan : List Nat}
     (hk : calls[i]? = some k)
     (hp : (execSched .fixed m calls sched (initSys c calls)).pcs[i]? = some (.planned plan))
-    (hcomp : PlannerComplete m k)
     (hg : r.g = m.g) (hwf : Executor.WF r) (hcap : r.g.captures = [])
     (hct : Executor.Contract ops r.g) (hu : UniqueProducer r.g)
     (hin : ∀ d ∈ k.req.ids, r.isInput d = true) :
@@ -328,7 +333,7 @@ theorem c22_values_sequential {V : Type} {ops : Executor.Ops V} {r : Executor.Ru
       ∀ vals, (Executor.runPlan ops r Executor.nocap plan k.req.outs).outcome = .ok vals ↔
         (Executor.runPlan ops r Executor.nocap p' k.req.outs).outcome = .ok vals := by
   obtain ⟨hargs, hok⟩ := c22_hit_plan_valid hc calls sched hk hp
-  obtain ⟨p', hp'⟩ := hcomp ⟨plan, hok⟩
+  obtain ⟨p', hp'⟩ := plannerComplete_of_unique (k := k) (hg ▸ hu) hargs ⟨plan, hok⟩
   have hok' := c03_plan_ok (argsOK_of_createPlan_ok hp') hp'
   refine ⟨p', hp', fun vals => ?_⟩
   rw [← hg] at hok hok'
@@ -469,7 +474,7 @@ example : ∃ p', createPlan tMdl.g [0] [2, 1] (cacheOpts false) = .ok p' ∧
     ∀ vals, (Executor.runPlan Executor.okOps Executor.twoRun Executor.nocap [3, 4] [2, 1]).outcome = .ok vals ↔
       (Executor.runPlan Executor.okOps Executor.twoRun Executor.nocap p' [2, 1]).outcome = .ok vals :=
   c22_values_sequential (m := tMdl) (k := { req := ⟨[(0, tv)], [2, 1]⟩ }) Reachable.cold tCalls [0, 1]
-    (i := 1) (by decide) (by decide) (fun _ => ⟨[4, 3], by decide⟩) rfl Executor.twoRun_wf rfl
+    (i := 1) (by decide) (by decide) rfl Executor.twoRun_wf rfl
     ⟨fun _ => List.nodup_nil, fun _ h => absurd rfl h, fun _ _ _ _ _ _ _ _ _ => rfl⟩
     twoFailing_unique (by intro d hd; simp [Req.ids] at hd; subst hd; rfl)
 
